@@ -13,6 +13,32 @@ sys.path.insert(0, os.path.dirname(os.path.abspath(__file__)))
 from c24_driver import Tracer      # noqa: E402
 
 
+LOGS = ("minisanity.txt", "counting_report.txt")
+
+
+def point_variants(kind, name, open_names, level):
+    """Crash-point variants at one traced operation: [(mode, frac)].  kill: plain kill before the
+    operation.  light: + one torn variant of every write to a non-log file.  medium: + buffers
+    flushed wherever a non-log file is open.  full: flush wherever any file is open, three torn
+    fractions (one for log files)."""
+    out = [("kill", 0.0)]
+    if level == "kill":
+        return out
+    state = any(f not in LOGS for f in open_names)
+    if open_names and ((level == "medium" and state) or level == "full"):
+        out.append(("flush", 0.0))
+    if kind == "write":
+        if name not in LOGS:
+            out += [("torn", fr) for fr in ([0.03, 0.5, 0.97] if level == "full" else [0.5])]
+        elif level == "full":
+            out.append(("torn", 0.5))
+    return out
+
+
+def snap_name(k, mode, frac):
+    return "k%d_%s_%d" % (k, mode, int(round(frac * 100)))
+
+
 def build(case):
     import numpy as np
     import nifty.cl as ift
@@ -36,6 +62,17 @@ def build(case):
               fresh_stochasticity=(lambda i: fresh[min(i, len(fresh) - 1)]) if isinstance(fresh, list) else fresh)
     if case.get("point_estimates"):
         kw["point_estimates"] = list(case["point_estimates"])
+    if case.get("transition", False):
+        # the start of iteration i depends on EVERY sample of the previous iteration (weights
+        # 1, 2, 3, ...), so that a sample list mixed from two iterations changes the result
+        def combine(sl):
+            items = [sl.local_item(k) for k in range(sl.n_local_samples)]
+            tot = None
+            for k, x in enumerate(items):
+                y = x * float(k + 1)
+                tot = y if tot is None else tot + y
+            return tot * (1.0 / sum(range(1, len(items) + 1)))
+        kw["transitions"] = lambda i: (combine if i > 0 else None)
     n_samples = (lambda i: ns[min(i, len(ns) - 1)]) if isinstance(ns, list) else int(ns)
     return lh, int(case["n_iter"]), n_samples, mini, ic, kw, int(case["seed"])
 
@@ -68,16 +105,17 @@ def classify(odir, strategy):
     pre = {"files": [], "marker": "absent"}
     if os.path.isdir(odir):
         pre["files"] = sorted(os.path.relpath(os.path.join(d, f), odir) for d, _, fs in os.walk(odir) for f in fs)
-    lf = os.path.join(odir, "last_finished_iteration")
-    if os.path.isfile(lf):
-        txt = open(lf).read()
-        try:
-            pre["marker"] = int(txt)
-        except ValueError:
-            pre["marker"] = "torn"
+    for key, fn in (("marker", "last_finished_iteration"), ("marker_tmp", "last_finished_iteration.tmp")):
+        lf = os.path.join(odir, fn)
+        if os.path.isfile(lf):
+            txt = open(lf).read()
+            try:
+                pre[key] = int(txt)
+            except ValueError:
+                pre[key] = "torn"
     loadable = {}
     for f in pre["files"]:
-        if f.startswith("pickle" + os.sep) and "random_state" not in f:
+        if f.startswith("pickle" + os.sep):
             try:
                 with open(os.path.join(odir, f), "rb") as fh:
                     pickle.load(fh)
@@ -88,8 +126,102 @@ def classify(odir, strategy):
     return pre
 
 
+def batch(path):
+    """Zygote: import everything once.  jobs = [[spec, spec, ...], ...]: the specs of one chain run
+    one after the other.  A spec with "fork": true runs in a forked child (nifty.cl is
+    single-threaded and does not import jax, so fork is safe) -- a killed child is a really killed
+    process (os._exit); the others run inside this process, one after the other, with the tracer
+    uninstalled and NIFTy's random-number stack restored after each."""
+    import time
+    jobs = json.load(open(path))
+    import logging
+    logging.disable(logging.CRITICAL)
+    import warnings
+    warnings.filterwarnings("ignore")
+    import pickle, datetime                      # noqa: F401
+    import nifty.cl as ift                       # noqa: F401
+    from nifty.cl.extra import minisanity        # noqa: F401
+    try:
+        import h5py                              # noqa: F401
+    except ImportError:
+        pass
+    if len(os.listdir("/proc/self/task")) != 1 or "jax" in sys.modules:
+        print("zygote is not single-threaded", flush=True)
+        os._exit(3)
+    rcs = []
+    for chain in jobs:
+        row = []
+        for spec in chain:
+            if not spec.get("fork", True):
+                try:
+                    run_one(spec, in_process=True)
+                    row.append(0)
+                except BaseException as e:                  # noqa
+                    print("in-process run failed: %r" % (e,), flush=True)
+                    row.append(1)
+                continue
+            sys.stdout.flush()
+            pid = os.fork()
+            if pid == 0:
+                try:
+                    run_one(spec)
+                finally:
+                    os._exit(1)
+            t0 = time.time()
+            while True:
+                p, st = os.waitpid(pid, os.WNOHANG)
+                if p:
+                    row.append(os.waitstatus_to_exitcode(st))
+                    break
+                if time.time() - t0 > 300:
+                    os.kill(pid, 9)
+                    os.waitpid(pid, 0)
+                    row.append(124)
+                    break
+                time.sleep(0.01)
+        rcs.append(row)
+    with open(path + ".rcs", "w") as f:
+        json.dump(rcs, f)
+    sys.stdout.flush()
+    os._exit(0)
+
+
 def main():
-    spec = json.load(open(sys.argv[1]))
+    if sys.argv[1] == "--batch":
+        batch(sys.argv[2])
+    run_one(json.load(open(sys.argv[1])))
+
+
+def dir_sha(odir):
+    """Content hash of the directory a restart finds: every file byte for byte, except the two
+    append-only logs (they contain wall-clock time stamps) and the random state file, which is
+    hashed by its meaning (pickle.dumps of the same generator state is not byte-stable)."""
+    import pickle
+    h = hashlib.sha256()
+    if not os.path.isdir(odir):
+        return "no-directory"
+    for d, ds, fs in sorted(os.walk(odir)):
+        for f in sorted(fs):
+            p = os.path.join(d, f)
+            rel = os.path.relpath(p, odir)
+            h.update(rel.encode() + b"\0")
+            if rel in LOGS:
+                continue
+            with open(p, "rb") as fh:
+                raw = fh.read()
+            if rel == os.path.join("pickle", "nifty_random_state"):
+                try:
+                    sseq, rng = pickle.loads(raw)
+                    raw = json.dumps([[str(x.entropy), list(x.spawn_key), x.pool_size, x.n_children_spawned] for x in sseq]
+                                     + [r.bit_generator.state for r in rng], sort_keys=True, default=str).encode()
+                except Exception:
+                    pass
+            h.update(raw)
+            h.update(b"\0")
+    return h.hexdigest()
+
+
+def run_one(spec, in_process=False):
     import logging
     logging.disable(logging.CRITICAL)
     import warnings
@@ -99,17 +231,26 @@ def main():
     odir = spec["odir"]
     case = spec["case"]
     lh, n_iter, n_samples, mini, ic, kw, seed = build(case)
-    header = {"resume": spec["resume"], "crash_at": spec["crash_at"], "nifty_file": nifty.__file__,
-              "pre": classify(odir, case["strategy"])}
+    pre = classify(odir, case["strategy"])
+    pre["dir_sha"] = dir_sha(odir)
+    header = {"resume": spec["resume"], "crash_at": spec["crash_at"], "nifty_file": nifty.__file__, "pre": pre}
     tr = Tracer(odir, int(spec["crash_at"]), spec.get("mode", "kill"), float(spec.get("frac", 0.5)), spec["out"])
     tr.header = header
+    for sn in spec.get("snapshots", []):
+        tr.snaps.setdefault(int(sn["k"]), []).append(sn)
+    rule = spec.get("snap_rule")
+    if rule:
+        def snap_cb(k, kind, name, open_names):
+            return [{"mode": m, "frac": fr, "dest": os.path.join(rule["dir"], snap_name(k, m, fr), "odir")}
+                    for m, fr in point_variants(kind, name, open_names, rule["level"])]
+        tr.snap_cb = snap_cb
     iters = {}
     header["iters"] = iters
-    state = {"mean": None}
 
     def inspect(sl, iglobal):
         iters[str(int(iglobal))] = canon(sl, sl.mean if hasattr(sl, "mean") else sl.local_item(0))["hash"]
 
+    state0 = ift.random.getState()
     ift.random.push_sseq_from_seed(seed)
     tr.install(modules=("nifty.cl.minimization.optimize_kl", "nifty.cl.minimization.sample_list"))
     try:
@@ -118,10 +259,27 @@ def main():
         out = {"outcome": "ok", "final": canon(sl, mean)}
     except BaseException as e:                                    # noqa: resume impossible etc.
         out = {"outcome": "raised", "error": type(e).__name__, "detail": str(e)[:200]}
+    for t in list(tr.open_files):                                 # files left open by an exception
+        try:
+            t.f.close()
+        except Exception:
+            pass
+    if out["outcome"] == "ok":
+        for k, sns in tr.snaps.items():                           # "killed after the last operation"
+            if k >= len(tr.ops):
+                for sn in sns:
+                    tr.snapshot(sn, None, None, None)
+        if rule:
+            tr.snapshot({"mode": "kill", "frac": 0.0,
+                         "dest": os.path.join(rule["dir"], snap_name(len(tr.ops), "kill", 0.0), "odir")}, None, None, None)
+    out["snaps_taken"] = tr.snaps_taken
     out["shadow_mismatch"] = tr.shadow_mismatch() if out["outcome"] == "ok" else []
+    tr.uninstall()
+    ift.random.setState(state0)
     tr.dump(out)
     sys.stdout.flush()
-    os._exit(0)
+    if not in_process:
+        os._exit(0)
 
 
 if __name__ == "__main__":
